@@ -122,6 +122,25 @@ def run_harness(binpath, testname, cwd, outfile, env_extra, timeout=1800, test=T
     return rc, o
 
 
+def regenerate():
+    """T-gen: rebuild tools/extract and regenerate lean/Obao/Gen/*.lean from /repo's current source.
+    Files are rewritten only when their content changes (keeps Lake's traces valid)."""
+    os.makedirs(os.path.join(WORK, "bin"), exist_ok=True)
+    env = dict(os.environ)
+    env.update({"GOFLAGS": "", "GOPROXY": "off", "GOSUMDB": "off", "GOWORK": "off", "GOTOOLCHAIN": "local"})
+    g127 = "/opt/veriftools/go1.27.0/bin"
+    if os.path.exists(os.path.join(g127, "go")):
+        env["PATH"] = g127 + os.pathsep + env.get("PATH", "")
+    exe = os.path.join(WORK, "bin", "extract")
+    rc, o, dt = run(["go", "build", "-o", exe, "."], cwd=os.path.join(ROOT, "tools", "extract"), env=env, timeout=600)
+    if rc != 0:
+        raise TieBroken("extractor-build", o[-4000:])
+    rc, o, dt = run([exe, REPO, os.path.join(LEAN, "Obao", "Gen")], timeout=600)
+    log("regenerated Obao/Gen in %.1fs rc=%d" % (dt, rc))
+    if rc != 0:
+        raise TieBroken("extractor-run (source shape not recognised)", o[-4000:])
+
+
 # ---------------------------------------------------------------- Lean side
 
 def lake_build(targets, timeout=3600):
